@@ -63,18 +63,23 @@ func process1Map(obj map[string]any, mergeFrom *Document, mergeFromDocs []*Docum
 }
 
 func process1MapMerge(obj map[string]any, mergeFrom *Document, mergeFromDocs []*Document, v any, depth int) (any, error) {
-	in, err := get(mergeFrom, mergeFromDocs, v)
+	// Resolve the reference to a private copy while obj still carries the
+	// directive: the referenced subtree is never shared with or modified
+	// through obj.
+	in, err := getRef(mergeFrom, mergeFromDocs, v, obj)
 	if err != nil {
 		return nil, err
 	}
 
-	// Resolve the reference to a private copy while obj still carries the
-	// directive: the referenced subtree is never shared with or modified
-	// through obj, and a subtree merged into itself keeps referring to
-	// itself until the depth guard reports the cycle.
-	in = cloneTree(in)
-
 	delete(obj, "$merge")
+
+	// obj is merged and evaluated in place; until that is finished, any
+	// reference to a subtree that contains it is circular.
+	mergeFrom.resolving = append(mergeFrom.resolving, obj)
+
+	defer func() {
+		mergeFrom.resolving = mergeFrom.resolving[:len(mergeFrom.resolving)-1]
+	}()
 
 	next, err := mergeMap(obj, in)
 	if err != nil {
@@ -85,12 +90,12 @@ func process1MapMerge(obj map[string]any, mergeFrom *Document, mergeFromDocs []*
 }
 
 func process1MapReplace(obj map[string]any, mergeFrom *Document, mergeFromDocs []*Document, v any, depth int) (any, error) {
-	next, err := get(mergeFrom, mergeFromDocs, v)
+	next, err := getRef(mergeFrom, mergeFromDocs, v, nil)
 	if err != nil {
 		return nil, err
 	}
 
-	return process1(cloneTree(next), mergeFrom, mergeFromDocs, depth)
+	return process1(next, mergeFrom, mergeFromDocs, depth)
 }
 
 func process1List(obj []any, mergeFrom *Document, mergeFromDocs []*Document, depth int) (any, error) {
@@ -146,21 +151,21 @@ func process1List(obj []any, mergeFrom *Document, mergeFromDocs []*Document, dep
 }
 
 func process1ListMerge(obj []any, mergeFrom *Document, mergeFromDocs []*Document, m any, depth int) ([]any, error) {
-	in, err := get(mergeFrom, mergeFromDocs, m)
+	in, err := getRef(mergeFrom, mergeFromDocs, m, nil)
 	if err != nil {
 		return nil, err
 	}
 
-	return mergeList(obj, cloneTree(in))
+	return mergeList(obj, in)
 }
 
 func process1ListReplace(obj []any, mergeFrom *Document, mergeFromDocs []*Document, m any, depth int) (any, error) {
-	next, err := get(mergeFrom, mergeFromDocs, m)
+	next, err := getRef(mergeFrom, mergeFromDocs, m, nil)
 	if err != nil {
 		return nil, err
 	}
 
-	return process1(cloneTree(next), mergeFrom, mergeFromDocs, depth)
+	return process1(next, mergeFrom, mergeFromDocs, depth)
 }
 
 func process1String(obj string, mergeFrom *Document, mergeFromDocs []*Document, depth int) (any, error) {
@@ -178,21 +183,21 @@ func process1String(obj string, mergeFrom *Document, mergeFromDocs []*Document, 
 func process1StringMerge(obj string, mergeFrom *Document, mergeFromDocs []*Document, depth int) (any, error) {
 	path := strings.TrimPrefix(obj, "$merge:")
 
-	in, err := get(mergeFrom, mergeFromDocs, path)
+	in, err := getRef(mergeFrom, mergeFromDocs, path, nil)
 	if err != nil {
 		return nil, err
 	}
 
-	return process1(cloneTree(in), mergeFrom, mergeFromDocs, depth)
+	return process1(in, mergeFrom, mergeFromDocs, depth)
 }
 
 func process1StringReplace(obj string, mergeFrom *Document, mergeFromDocs []*Document, depth int) (any, error) {
 	path := strings.TrimPrefix(obj, "$replace:")
 
-	in, err := get(mergeFrom, mergeFromDocs, path)
+	in, err := getRef(mergeFrom, mergeFromDocs, path, nil)
 	if err != nil {
 		return nil, err
 	}
 
-	return process1(cloneTree(in), mergeFrom, mergeFromDocs, depth)
+	return process1(in, mergeFrom, mergeFromDocs, depth)
 }
